@@ -102,3 +102,28 @@ def text_of(b):
         return b.decode("utf-8")
     except UnicodeDecodeError:
         return None
+
+
+# ------------------------------------------------------------------------------------------ literal stress (valid programs)
+LITERAL_STRESS = {
+    "python": [
+        'a = b"\\xff\\xd8\\xff"\nb = b"\\xFF\\xFF\\xFF\\xFF"\nc = b"\\x89PNG"\nd = "\\xe9\\xe8"\ne = b"\\x00\\x01"\nf = "\\x41\\x42"\n',
+        'a = "\\u00e9\\N{BULLET}\\U0001F600"\nb = r"\\d+\\s*"\nc = rb"\\x00"\nd = f"{a!r:>10}{b}"\ne = f"{{}}{a}"\ng = """tri"ple\'s"""\nh = \'\'\'x"""y\'\'\'\n',
+        'a = 0xFF_FF\nb = 0o17\nc = 0b1010_1010\nd = 1_000_000\ne = 1e400\nf = 3j\ng = 0.\nh = .5e-3\ni = 99999999999999999999999999999999999999\nj = -0\n',
+        'a = "a" "b" \'c\'\nb = ("x"\n     "y")\nc = "\\\n"\nd = "tab\\there"\ne = "nul\\0x"\nf = "\\777"\ng = b"\\\'"\nh = "%s %d %%" % ("s", 1)\n',
+        'a = [b"\\xff", "\\udc80", b""]\nb = {b"\\xfe": "\\x7f"}\nc = (b"\\x80",)\nd = lambda: b"\\xc3\\x28"\n',
+    ],
+    "javascript": [
+        'var a = `tpl ${1 + 2} \\u{1F600}`;\nvar b = /ab+c\\/[\\]"]/gi;\nvar c = 123n;\nvar d = 1_000;\nvar e = "\\xff\\u00e9\\u{10FFFF}";\nvar f = \'\\\n\';\nvar g = 0x1F + 0o17 + 0b11;\nvar h = .5e-3;\n',
+        'var a = "\\0";\nvar b = `a${`b${"c"}`}`;\nvar c = /[/]/;\nvar d = 1e400;\nvar e = "\\u2028";\nvar f = String.raw`\\xff`;\n',
+    ],
+    "typescript": ['let a: string = `t ${1}`;\nlet b = 123n;\nlet c = "\\xff\\u{1F600}";\nlet d = 1_000;\nlet e = /x\\//g;\n'],
+    "java": ['class L { void m() { String a = "\\u00e9\\377\\t\\""; char c = \'\\uFFFF\'; char d = \'\\\'\'; long e = 0xFFFF_FFFFL; double f = 0x1.8p1; int g = 0b1010; String t = """\n   text "block" \\\n   x""" ; float h = 1e38f; } }\n'],
+    "c": ['int m() { char *a = "\\xff\\377\\0"; char c = \'\\\'\'; unsigned long e = 0xFFFFFFFFUL; double f = 0x1.8p1; int g = 017; char *w = "a" "b"; return \'\\x7f\'; }\n'],
+    "go": ['package main\nfunc m() { a := "\\xff\\u00e9"; b := `raw \\x`; c := \'\\\'\'; d := 0x1p-2; e := 1_000; f := 0b11; g := 3i; _ = a; _ = b; _ = c; _ = d; _ = e; _ = f; _ = g }\n'],
+    "php": ['<?php\n$a = "\\xff\\u{1F600}\\$x {$b}";\n$b = \'\\\'\\\\\';\n$c = 0x1F + 0b11 + 017 + 1_000;\n$d = <<<EOT\n heredoc $a\nEOT;\n$e = <<<\'N\'\n nowdoc\nN;\n$f = .5e-3;\n'],
+}
+
+
+def literal_stress(lang):
+    return [("literal_stress_%d" % i, t) for i, t in enumerate(LITERAL_STRESS.get(lang, []))]
